@@ -13,4 +13,5 @@ Definition config_actual : quirks :=
     "repo_ignore_not_loaded[pyproject]"; "repo_ignore_not_loaded[--config]";
     "global_config_option_ignored"; "dry_config_option_merges_section_only";
     "wrong_type_swallowed";
-    "language_block_error_retried_without_language"; "invalid_top_level_value_shadowed_by_language_block" ].
+    "language_block_error_retried_without_language"; "invalid_top_level_value_shadowed_by_language_block";
+    "thailint_json_is_not_a_root_marker" ].
